@@ -204,3 +204,11 @@ PROPERTY_ASSUMPTIONS["C17"] = [
 ]
 M("C17", "c17_response_step", ["saito_core::core::consensus::peers::peer::Peer::handle_handshake_response (async body)", "Peer::mark_as_disconnected", "Version::is_set / is_same_minor_version"],
   "every path of the body (about 200) from a symbolic Peer: status in {Disconnected, Connecting, Connected}, challenge / key / static config present or absent; five clauses per returning path", covers=1)
+
+# ============================================================================== C18
+PROPERTY_ASSUMPTIONS["C18"] = [
+    "engine M over the per-transaction projection step of Block::generate_lite_block (the closure mapped over the block's transactions); slice::contains is membership, slice::binary_search is specified only for sorted slices (arbitrary otherwise)",
+    "the merging of adjacent placeholders, the recomputability of the merkle root from placeholders, the header copy and the wire round trip are outside this revision's claim",
+]
+M("C18", "c18_lite_tx_projection", ["saito_core::core::consensus::block::Block::generate_lite_block::{closure#0} and its two nested closures"],
+  "transactions with 0..=2 inputs x 0..=2 outputs (thorough 0..=3), every type, owners symbolic 33-byte keys; key lists of 0..=2 (3) symbolic keys in any order", covers=20)
